@@ -33,6 +33,8 @@ type env struct {
 	keyDir      string
 	token       string
 	trustDomain string
+	// SSL: a throw-away CA and a server certificate for "localhost", made at run time
+	caFile, certFile, keyFile string
 }
 
 func newEnv(dir string) (*env, error) {
@@ -50,7 +52,11 @@ func newEnv(dir string) (*env, error) {
 	if err != nil {
 		return nil, err
 	}
-	return &env{poolKeyFile: pool, keyDir: keyDir, token: tok, trustDomain: "cedar.test"}, nil
+	e := &env{poolKeyFile: pool, keyDir: keyDir, token: tok, trustDomain: "cedar.test"}
+	if err := e.makeCerts(filepath.Join(dir, "c19-ssl")); err != nil {
+		return nil, fmt.Errorf("cannot make SSL credentials: %w", err)
+	}
+	return e, nil
 }
 
 // inst is one prepared run of a shape: the connection under test wraps the end
@@ -68,7 +74,14 @@ type shape struct {
 	Role string // "plain" | "client" | "server"
 	// handshake: any non-nil error satisfies "ctx"; plain: errors.Is(err, ctx.Err())
 	Handshake bool
-	prepare   func(e *env) (*inst, error)
+	// FailsAlone: left alone (no stall, nothing fired) the call performs a fixed script of
+	// I/O steps and then returns a protocol error of its own. This is the SSL handshake
+	// between two cedar endpoints: the TLS exchange runs to completion, then the
+	// completion check fails because cedar's server role reports status 2 instead of
+	// HOLDING. Every step up to there still has to be cancellable; only the runs whose
+	// model outcome is "returns nil" (never fired / fired after the return) are skipped.
+	FailsAlone bool
+	prepare    func(e *env) (*inst, error)
 }
 
 var runSerial int64
@@ -277,11 +290,12 @@ func plainShape(d plainDef) *shape {
 // handshakes
 
 type hsDef struct {
-	name    string
-	methods []security.AuthMethod
-	auth    security.SecurityLevel
-	enc     security.SecurityLevel
-	resumed bool
+	failsAlone bool
+	name       string
+	methods    []security.AuthMethod
+	auth       security.SecurityLevel
+	enc        security.SecurityLevel
+	resumed    bool
 }
 
 func hsDefs() []hsDef {
@@ -290,6 +304,7 @@ func hsDefs() []hsDef {
 		{name: "hs_claimtobe", methods: []security.AuthMethod{security.AuthClaimToBe}, auth: security.SecurityRequired, enc: security.SecurityOptional},
 		{name: "hs_token", methods: []security.AuthMethod{security.AuthToken}, auth: security.SecurityRequired, enc: security.SecurityOptional},
 		{name: "hs_fs", methods: []security.AuthMethod{security.AuthFS}, auth: security.SecurityRequired, enc: security.SecurityOptional},
+		{name: "hs_ssl", failsAlone: true, methods: []security.AuthMethod{security.AuthSSL}, auth: security.SecurityRequired, enc: security.SecurityOptional},
 		{name: "hs_resumed", methods: []security.AuthMethod{security.AuthNone}, auth: security.SecurityOptional, enc: security.SecurityRequired, resumed: true},
 	}
 }
@@ -305,6 +320,14 @@ func (e *env) cfg(d hsDef, client bool, peerName string, cache *security.Session
 		Command:        commands.DC_NOP,
 		SessionCache:   cache,
 	}
+	if len(d.methods) == 1 && d.methods[0] == security.AuthSSL {
+		// client: trusts the run-time CA and checks the server name; server: presents the certificate
+		c.CAFile = e.caFile
+		c.ServerName = "localhost"
+		if !client {
+			c.CertFile, c.KeyFile = e.certFile, e.keyFile
+		}
+	}
 	if client {
 		c.PeerName = peerName
 		c.Token = e.token
@@ -316,7 +339,7 @@ func (e *env) cfg(d hsDef, client bool, peerName string, cache *security.Session
 }
 
 func hsShape(d hsDef, role string) *shape {
-	return &shape{Name: d.name, Role: role, Handshake: true, prepare: func(e *env) (*inst, error) {
+	return &shape{Name: d.name, Role: role, Handshake: true, FailsAlone: d.failsAlone, prepare: func(e *env) (*inst, error) {
 		serial := atomic.AddInt64(&runSerial, 1)
 		peerName := fmt.Sprintf("c19-server-%d-%d", os.Getpid(), serial)
 		// per-run caches: parallel runs never share a session (the server side of a full
